@@ -717,6 +717,25 @@ def m_hashset(c):
     c.ret(Int.boolean())
 
 
+def _own_eq_body(c):
+    """the local `<T as PartialEq>::eq` body for the Self type of this `ne` call, if the program has one"""
+    args = (c.callee or {}).get("args") or []
+    if not args:
+        return None
+    ty = args[0]
+    while isinstance(ty, dict) and ty.get("k") == "ref":
+        ty = ty.get("to")
+    if not isinstance(ty, dict) or ty.get("k") != "adt":
+        return None
+    p = strip_generics(ty.get("path", ""))
+    for key, b in c.I.prog.bodies.items():
+        if key.endswith(" as std::cmp::PartialEq>::eq") and b.promoted_index is None:
+            inner = key[1:key.index(" as ")]
+            if strip_generics(inner) == p or strip_generics(inner).split("<")[0] == p:
+                return b
+    return None
+
+
 @model("std::cmp::PartialEq::eq", "std::cmp::PartialEq::ne")
 def m_eq(c):
     if c.callee and "resolved" in c.callee and c.callee["resolved"]["path"] in ():
@@ -724,6 +743,19 @@ def m_eq(c):
     body = c.I.prog.bodies.get(c.rname)
     if body is not None:
         return NotImplemented
+    if c.name.endswith("::ne"):
+        # the provided `ne` is `!eq`: when the type's own `eq` is part of the program, evaluate that and negate
+        eqb = _own_eq_body(c)
+        if eqb is not None:
+            outs = c.I.inline_call(c, eqb)
+            for s in outs:
+                dloc = c.I.resolve(s, c.frame, c.term["dest"])
+                v = c.I.read_loc(s, dloc) if dloc is not None else None
+                if isinstance(v, Int) and v.is_const():
+                    c.I.write_place(s, c.frame, c.term["dest"], Int.const(1 - v.lo, 1, False))
+                else:
+                    c.I.write_place(s, c.frame, c.term["dest"], Int.boolean())
+            return
     a, al = c.arg(0)
     b, bl = c.arg(1)
     for _ in range(2):
